@@ -106,16 +106,13 @@ func BuildText(ws *pipe.Workspace, loxFiles map[string]string, s *lexref.Spec) *
 		b.Status, b.Problem = Broken, "lexer.gen.go runtime text differs from carrier: "+pipe.FirstDiff(lp.Skeleton, o.Skeleton)
 		return b
 	}
-	nm := 0
-	for _, n := range lp.Order {
-		if n != "_lexerModes" {
-			nm++
-		}
-	}
-	for i := 0; i < nm; i++ {
-		t, ok := lp.Tables[fmt.Sprintf("_lexerMode%d", i)]
+	// The lexer finds a mode's table by position in _lexerModes.
+	ids := lp.Idents["_lexerModes"]
+	nm := len(ids)
+	for _, id := range ids {
+		t, ok := lp.Tables[id]
 		if !ok {
-			b.Status, b.Problem = Broken, fmt.Sprintf("_lexerMode%d not found", i)
+			b.Status, b.Problem = Broken, fmt.Sprintf("_lexerModes names %s, which is not declared", id)
 			return b
 		}
 		u := make([]uint32, len(t))
@@ -123,10 +120,6 @@ func BuildText(ws *pipe.Workspace, loxFiles map[string]string, s *lexref.Spec) *
 			u[j] = uint32(v)
 		}
 		b.Modes = append(b.Modes, u)
-	}
-	if cnt := lp.Tables["_lexerModes"]; len(cnt) != 1 || int(cnt[0]) != nm {
-		b.Status, b.Problem = Broken, fmt.Sprintf("_lexerModes lists %v tables, %d _lexerModeN declared", cnt, nm)
-		return b
 	}
 	b.DFAs = r.V.Modes
 	b.C = lexref.Compile(s)
